@@ -164,6 +164,16 @@ func (c counter) next(s string) string {
 	return fmt.Sprintf("%s #%d", s, c[s])
 }
 
+// in numbers similar constructs per function.
+func (c counter) in(fn *ssa.Function, s string) string {
+	k := fname(fn) + "|" + s
+	c[k]++
+	if c[k] == 1 {
+		return s
+	}
+	return fmt.Sprintf("%s #%d", s, c[k])
+}
+
 // factIsCallTrue: fact says "result of a call to fn is val".
 func (fi *FuncInfo) guardedByCall(at ssa.Instruction, val bool, fns ...*ssa.Function) bool {
 	return fi.Guarded(at, func(v ssa.Value, fv bool) bool {
